@@ -31,6 +31,21 @@ def configs(tier: str):
                                 out.append(default_cfg(N=N, B=B, errors=errors, failures=failures, cfe=cfe, t=t,
                                                        offset=offset, finite=False, faults=faults, hook_faults=hooks, post_write=hooks,
                                                        witness_rate=0.01 if tier == 'quick' else 0.03))
+    # ARBITRARY PRE-STATE / HISTORIES: a period that already carries a status ('.' from an earlier solve, 'E', 'S', 'F')
+    # may hold non-finite values written since; the policies apply to what is there now, not to what the status suggests
+    for errors in ('raise', 'skip', 'ignore', 'replace'):
+        for failures in ('raise', 'ignore'):
+            for B in (1, 2) if tier == 'quick' else (0, 1, 2, 3):
+                for N in (1, 2):
+                    if N == 2 and (tier == 'quick' or B > 2) and errors not in ('raise', 'replace'):
+                        continue
+                    out.append(default_cfg(N=N, B=B, errors=errors, failures=failures, t=1, offset='zero', finite=False,
+                                           faults=(N == 1 and B == 1), status0='sym'))
+                    for stage in ('rebind', 'reindex', 'copy'):
+                        if N == 2 or (tier == 'quick' and failures == 'ignore'):
+                            continue
+                        out.append(default_cfg(N=N, B=B, errors=errors, failures=failures, t=-1 if stage == 'copy' else 1, offset='zero',
+                                               finite=False, stage=stage, status0='sym' if stage == 'copy' else None))
     return out
 
 
@@ -47,8 +62,9 @@ def finding_key(cfg: dict, cand: dict) -> str:
         return f"progloop:{cfg['prog']},B={cfg['B']},errors={cfg['errors']},failures={cfg['failures']}:{bad[0] if bad else '?'}"
     if cfg.get('part') == 'natural':
         return f"natural:{cfg['prog']},errors={cfg['errors']},cfe={cfg['cfe']},B={cfg['B']}:{bad[0] if bad else '?'}"
+    hist = (f",history={cfg['stage']}" if cfg.get('stage') else '') + (f",status0={cfg['status0']}" if cfg.get('status0') is not None else '')
     return (f"errors={cfg['errors']},failures={cfg['failures']},cfe={cfg['cfe']},B={cfg['B']},N={cfg['N']},"
-            f"faults={cfg['faults']},hooks={cfg['hook_faults']},t={cfg['t']},offset={cfg['offset']}:{bad[0] if bad else '?'}")
+            f"faults={cfg['faults']},hooks={cfg['hook_faults']},t={cfg['t']},offset={cfg['offset']}{hist}:{bad[0] if bad else '?'}")
 
 
 # -- natural faults: parser-built models whose equations fault by themselves ---------------------------------------
